@@ -109,7 +109,9 @@ def make_steps(rng, n, slow, reloads=0, excludes=False):
     for _ in range(n):
         r = rng.random()
         if excludes and r < 0.12:
-            act = rng.choice(["exclude", "exclude", "down+exclude", "up+up+exclude", "exclude+put(a)", "toggle+down+toggle+exclude-multi"])
+            act = rng.choice(["exclude", "exclude", "down+exclude", "up+up+exclude", "exclude+put(a)", "toggle+down+toggle+exclude-multi",
+                              "change-nth(2)", "change-nth(3)", "change-nth(2|3|..)", "change-nth(2..)", "change-nth(..2)", "change-nth(2)+put(b)",
+                              "change-nth(3)+exclude"])
         elif used < reloads and r < 0.2:
             act = rng.choice(["RELOAD%d", "RELOADSYNC%d", "RELOAD%d+put(a)", "change-query(b)+RELOAD%d"]) % used
             used += 1
@@ -189,19 +191,22 @@ def run_session(ctx, fzf, sid, lines, sched, steps, extra_args=(), width=70, hei
 
 def project(trace, get, sid, cmdmap=None):
     """Hook trace -> Trace_Pipeline events; returns (events, oracle_keys, info) where info maps a revision "M.m" to
-    (input number, excluded item indices): input number -1 = the initial input, k = reload command k."""
+    (input number, excluded item indices, --nth expression): input number -1 = the initial input, k = reload command k.
+    NOTE the --nth expression survives a reload (it is the coordinator's variable), exclusions do not."""
     evs = [{"ev": "start", "sid": sid}]
     keys = set()
     cmdmap = cmdmap or {}
     major_input = {0: -1}
-    deny_events = {0: []}   # per major revision: the id lists of the exclusions, in order (each bumps the minor revision)
+    bumps = {0: []}         # per major revision: the revision bumps in order, each (excluded ids, nth expression or "")
     cur_major = 0
 
     def info_of(rev):
-        ids = []
-        for lst in deny_events.get(rev[0], [])[:rev[1]]:
-            ids += [i for i in lst if i not in ids]
-        return (major_input.get(rev[0], -1), ids)
+        ids, nth = [], ""
+        for deny, expr in bumps.get(rev[0], [])[:rev[1]]:
+            ids += [i for i in deny if i not in ids]
+            if expr:
+                nth = expr
+        return (major_input.get(rev[0], -1), ids, nth)
     info = {}
 
     def req(e):
@@ -219,10 +224,9 @@ def project(trace, get, sid, cmdmap=None):
             if e["command"] not in cmdmap:
                 raise Infra("restart with an unknown command %r" % e["command"])
             major_input[cur_major] = cmdmap[e["command"]]
-            deny_events[cur_major] = []
-        elif k == "coord.deny":
-            if e.get("compatible", True):
-                deny_events.setdefault(cur_major, []).append(list(e["ids"]))
+            bumps[cur_major] = []
+        elif k == "coord.bump":
+            bumps.setdefault(cur_major, []).append((list(e.get("deny") or []) if e.get("compatible", True) else [], e.get("nth") or ""))
         elif k == "match.reset":
             evs.append(dict(req(e), ev="reset", cancel=e["cancel"], seq=e["seq"]))
         elif k in ("match.cachehit", "match.cancelled"):
@@ -249,9 +253,11 @@ def project(trace, get, sid, cmdmap=None):
     return evs, keys, info
 
 
-def oracle(fzf, lines, q, n, sort, extra_args=(), excluded=()):
+def oracle(fzf, lines, q, n, sort, extra_args=(), excluded=(), nth=""):
     """What a fresh `fzf --filter q` prints for the first n input lines, as item indices (minus excluded items)."""
     args = [fzf, "--filter", q] + list(extra_args)
+    if nth:
+        args += ["--nth", nth]
     if not sort:
         args.append("+s")
     r = subprocess.run(args, input=("".join(l + "\n" for l in lines[:n])).encode(), capture_output=True, env=go_env(), timeout=120)
